@@ -214,6 +214,19 @@ void dialect::doHOLA(Graph &G, const HolaOpts &holaOpts, Logger *logger) {
     lor.route(logger);
     ++ln;
 
+    // The router may have had to give bends to an edge whose two ends an earlier
+    // step aligned. From here on the structure of the layout is kept by the
+    // planarised graph, which records the routes actually chosen, so such an
+    // alignment is no longer maintained. It must not be among the core's
+    // constraints when these are written into the original graph at the end.
+    for (auto p : core->getEdgeLookup()) {
+        Edge_SP &e = p.second;
+        if (e->getRoute().size() > 2) {
+            std::pair<id_type, id_type> ends = e->getEndIds();
+            core->getSepMatrix().free(ends.first, ends.second);
+        }
+    }
+
     log(*core, string_format("%02d_core_leafless_ortho_route", ln++));
 
     OrthoPlanariser op(core);
